@@ -39,7 +39,7 @@ func hostileRun(prop string, stmts []ast.Node, doOut bool, family string, extra 
 	// that build huge values before they reach the VM
 	ref := rs.New()
 	ref.Budget = 300000
-	ref.SetStdin("line one\nline two\n")
+	ref.SetStdin("\nline two\n\r\nx\n")
 	refTerminates := make([]bool, len(stmts))
 	refSteps := make([]int, len(stmts))
 	for i, st := range stmts {
@@ -58,7 +58,7 @@ func hostileRun(prop string, stmts []ast.Node, doOut bool, family string, extra 
 			break
 		}
 	}
-	calcrun.SetStdin("line one\nline two\n")
+	calcrun.SetStdin("\nline two\n\r\nx\n")
 	ses := calcrun.NewSession()
 	ses.StepLimit = 200000
 	diverged := false
